@@ -479,8 +479,8 @@ def index_setup(v, kcond):
     p = Ptr(s.pid, (k,), False)
 
     def inv(L):
-        return [("range", z3.And(0 <= L.i, z3.Or(L.i < s.N, L.i == 0))), ("not_yet_found", z3.Or(L.i <= k, k >= s.N))]
-    v.loop(INDEX, 0, invariant=inv, variant=lambda L: z3.If(s.N - L.i >= 0, s.N - L.i, 0) + 1)
+        return [("range", z3.And(0 <= L.i, L.i <= s.N)), ("not_yet_found", z3.Or(L.i <= k, k >= s.N))]
+    v.loop(INDEX, 0, invariant=inv, variant=lambda L: s.N - L.i + 1)
     ret = v.call(INDEX, p)
     prune_if_infeasible(v)
     return s, k, ret
@@ -497,7 +497,7 @@ def _(v):
 @P.task("particle_index.beyond_N", fn=INDEX)
 def _(v):
     """p points into the storage but at or beyond N (a removed particle): returns -1.
-    EXPECTED TO FAIL for N == 0, k == 0 (the loop compares &particles[0] with p before looking at N)."""
+    (Failed for N == 0, k == 0 before the fix: the loop compared &particles[0] with p before looking at N.)"""
     s, k, ret = index_setup(v, lambda s, k: k >= s.N)
     v.prove("returns_minus_1", ret == -1)
     prove_unchanged(v, s)
@@ -518,8 +518,8 @@ def _(v):
     pobj.sim = s.rp
 
     def inv(L):
-        return [("range", z3.And(0 <= L.i, z3.Or(L.i < s.N, L.i == 0)))]
-    v.loop(INDEX, 0, invariant=inv, variant=lambda L: z3.If(s.N - L.i >= 0, s.N - L.i, 0) + 1)
+        return [("range", z3.And(0 <= L.i, L.i <= s.N))]
+    v.loop(INDEX, 0, invariant=inv, variant=lambda L: s.N - L.i + 1)
     ret = v.call(INDEX, pp)
     prune_if_infeasible(v)
     v.prove("returns_minus_1", ret == -1)
